@@ -32,6 +32,23 @@ def main():
                 else:
                     out.setdefault(key, ent)
     out = {k: v for k, v in out.items() if v is not None}
+    # loop forms, for the loop canonicalisation (for <-> while rewrites must not change a verdict)
+    astq._PINNED[0] = {}
+    loops = {}
+    for cfg in ('K0', 'K1', 'K2', 'K3', 'K4'):
+        for rel in ctx.ast_units(cfg):
+            try:
+                u = ctx.ast(rel, cfg)
+            except Exception:
+                continue
+            for f in u['functions']:
+                if f.get('body') is None or '/src/' not in f.get('file', ''):
+                    continue
+                sig = [x['k'] for x in astq.walk(f['body']) if x['k'] in ('For', 'While', 'Do')]
+                if sig:
+                    loops.setdefault(cfg + '|' + astq.fkey(f), sig)
+    with open(os.path.join(V, 'support', 'pinned_loops.json'), 'w') as fh:
+        json.dump(loops, fh, indent=0, sort_keys=True)
     with open(os.path.join(V, 'support', 'pinned_names.json'), 'w') as fh:
         json.dump(out, fh, indent=0, sort_keys=True)
     print('%d functions' % len(out))
